@@ -363,6 +363,8 @@ type Scenario struct {
 	LeakClass string
 	// Yields enables the seeded yield scheduler for this scenario.
 	Yields bool
+	// MaxSim is the simulated-time cap of a run (default 72 h).
+	MaxSim time.Duration
 	// After runs outside the bubble after the scenario function returned (real
 	// clock, real scheduler): history checkers such as porcupine go here.
 	After func(r *Run)
@@ -517,7 +519,11 @@ func Execute(sc *Scenario, base, index uint64, tier string, suppress []string, t
 			r.start = time.Now()
 			// simulated-time cap: a run that is still going after 72 simulated hours is a
 			// harness defect (an unbounded wait); fail fast as infrastructure trouble.
-			capTimer := time.AfterFunc(72*time.Hour, func() {
+			capSim := sc.MaxSim
+			if capSim == 0 {
+				capSim = 72 * time.Hour
+			}
+			capTimer := time.AfterFunc(capSim, func() {
 				os.Stderr.WriteString(fmt.Sprintf("sim: simulated-time cap exceeded in scenario %s run %d (seed %d)\n", sc.Name, index, base))
 				os.Exit(4)
 			})
